@@ -427,6 +427,8 @@ class Srv:
                     self.reject_site(h, name, e)
         # (c) command-supplied scalars used as index
         self.cmd_index_rules()
+        self.queue_mapping_rules()
+        self.handle_lifecycle_rules()
         # (d) panics
         self.panic_rules()
         self.internal_consts_unreachable()
@@ -517,6 +519,148 @@ class Srv:
                 res.ok("R1.cmd", "msg|channel_senders.get(from)", where(b, gets[0]), "sender index is looked up with a checked accessor")
             elif not [e for e in msg.evs(K("index"))]:
                 res.bad("R1.cmd", "msg|lookup", "cannot locate how msg selects the sender's queue")
+
+    def queue_mapping_rules(self):
+        """R9.queue: the per-peer byte queues are selected by the *unmodified* party id on both sides -
+        msg() looks the sender up with `from`, the Channel reads with `party` - so distinct ids can
+        never share a queue (a message naming any other id, including the own one, cannot be spliced
+        into a peer's stream).  A computed index in msg() is accepted only behind a rejecting
+        comparison of the id (the ids the computation cannot map injectively), and the Channel side
+        must then use the same mapping function."""
+        res = self.res
+        fg = self.fg
+        plain = lambda e: e.kind in ("copy", "ref", "base2field", "field2whole", "upvar", "closarg", "callarg")
+        sides = {}
+        for k, b in fg.bodies.items():
+            if b.krate != "polytune_server_core":
+                continue
+            for bi, t in b.calls():
+                names = callee_names(t)
+                if not names or not names[-1].endswith("<impl [T]>::get") or len(t["args"]) != 2 or bi not in b.live_blocks():
+                    continue
+                a0 = t["args"][0]
+                ty = a0["p"]["ty"] if a0["k"] != "const" else ""
+                if "tokio::sync::mpsc::bounded::Sender<alloc::vec::Vec<u8" in ty:
+                    side = "msg"
+                elif "tokio::sync::mpsc::bounded::Receiver<alloc::vec::Vec<u8" in ty:
+                    side = "recv"
+                else:
+                    continue
+                idx = t["args"][1]
+                if idx["k"] == "const":
+                    res.bad("R9.queue", side + "|queue", "the queue is selected by a constant", where(b, bi))
+                    continue
+                fam = b.owner
+                plain_back = fg.backward(fg.operand_nodes(k, idx), node_ok=lambda x: x[0] != "F" and fg.bodies[x[0]].owner == fam, edge_ok=plain)
+                computed = [e for x in plain_back for e in fg.inn.get(x, ()) if e.kind in ("bin", "un", "call", "cast", "lcall")]
+                how = sorted({((e.info or {}).get("names", [e.kind])[-1] if isinstance(e.info, dict) else e.kind) for e in computed})
+                guarded = False
+                id_back = set(plain_back)
+                if computed:
+                    id_back |= set(fg.backward([e.src for e in computed if e.src[0] != "F"], node_ok=lambda x: x[0] != "F" and fg.bodies[x[0]].owner == fam, edge_ok=plain))
+                for bj, blk in enumerate(b.blocks):
+                    tt = blk["t"]
+                    if tt["k"] != "switch" or tt["o"]["k"] == "const" or not b.dominates(bj, bi):
+                        continue
+                    for st in blk["s"]:
+                        if st["k"] == "assign" and st["r"]["k"] == "bin" and st["r"]["op"] in ("Eq", "Ne") and st["p"]["l"] == tt["o"]["p"]["l"]:
+                            ids = fg.backward(fg.operand_nodes(k, st["r"]["a"]) + fg.operand_nodes(k, st["r"]["b"]), node_ok=lambda x: x[0] == k, edge_ok=plain)
+                            if any(x in id_back for x in ids):
+                                tg = [tb for _v, tb in tt["ts"]] + [tt["else"]]
+                                if any(bi not in b.reachable_from(x) for x in tg):
+                                    guarded = True
+                sides.setdefault(side, []).append((b, bi, how, guarded))
+        for (b, bi, how, guarded) in sides.get("msg", []):
+            if not how:
+                res.ok("R9.queue", "msg|sender-queue", where(b, bi), "queue index is the unmodified sender id of the message")
+            elif guarded:
+                res.ok("R9.queue", "msg|sender-queue", where(b, bi), "queue index is computed from the sender id (%s) behind a rejecting comparison of that id" % how[0])
+            else:
+                res.bad("R9.queue", "msg|sender-queue", "the queue is selected by a value computed from the sender id (%s) and no comparison of the id rejects the ids the computation maps onto another party's queue: "
+                        "a message naming such an id is accepted and spliced into that party's byte stream" % how[0], where(b, bi))
+        mhow = sorted({h_ for (_b, _bi, how, _g) in sides.get("msg", []) for h_ in how})
+        for (b, bi, how, guarded) in sides.get("recv", []):
+            if how == mhow:
+                res.ok("R9.queue", "recv|receiver-queue", where(b, bi), "the Channel reads the queue selected by the same mapping of the party id as msg() (%s)" % (how or ["identity"])[0])
+            else:
+                res.bad("R9.queue", "recv|receiver-queue", "msg() files a message under %s of the sender id but the Channel reads the queue %s of the party id: the two sides disagree on which queue belongs to a party" % (mhow or ["identity"], how or ["identity"]), where(b, bi))
+        res.need("R9.queue", "queue_lookups", len(sides.get("msg", [])) + len(sides.get("recv", [])), 2, "checked lookups of the per-peer byte queues (msg and Channel::recv_bytes_from)")
+
+    def handle_lifecycle_rules(self):
+        """R9.handle (HTTP layer): a PolicyStateHandle leaves the routing table only after the state
+        machine it addresses has finished: every removing operation on the map of handles is dominated
+        by the Ready edge of the `.await` of that machine's `PolicyState::start()`.  A route that drops
+        the handle of a live machine makes the peers' /run, /consts and /msg fail (404) and thereby
+        changes the outcome of a computation that is under way."""
+        res = self.res
+        prog = self.prog
+        REMOVING = ("remove", "remove_entry", "clear", "retain", "drain", "insert", "extract_if", "take")
+        n_rm = 0
+        n_map = 0
+        for k, b in prog.bodies.items():
+            if b.krate != "polytune_http_server":
+                continue
+            rms = []
+            for bi, t in b.calls():
+                names = callee_names(t)
+                if not names or not t["args"] or t["args"][0]["k"] == "const" or bi not in b.live_blocks():
+                    continue
+                ty = t["args"][0]["p"]["ty"]
+                if "HashMap<" in ty and "PolicyStateHandle" in ty and "hash::map::HashMap::<K, V, S, A>::" in names[-1]:
+                    n_map += 1
+                    if names[-1].rsplit("::", 1)[-1] in REMOVING:
+                        rms.append((bi, names[-1].rsplit("::", 1)[-1]))
+                elif "PolicyStateHandle" in ty and "HashMap<" in ty and names[-1].endswith("core::mem::take"):
+                    rms.append((bi, "mem::take"))
+            if not rms:
+                continue
+            # ready edges of awaited PolicyState::start() futures in this body
+            ready = []
+            for bi, t in b.calls():
+                names = callee_names(t)
+                if not names or not any("PolicyState::<B, C>::start" in x or x.endswith("PolicyState::start") for x in names):
+                    continue
+                L = {t["d"]["l"]}
+                changed = True
+                while changed:
+                    changed = False
+                    for blk in b.blocks:
+                        for st in blk["s"]:
+                            if st["k"] != "assign" or st["p"]["pr"] or st["p"]["l"] in L:
+                                continue
+                            r = st["r"]
+                            src = None
+                            if r["k"] == "use" and r["o"]["k"] != "const":
+                                src = r["o"]["p"]["l"]
+                            elif r["k"] in ("ref", "rawptr"):
+                                src = r["p"]["l"]
+                            if src in L:
+                                L.add(st["p"]["l"])
+                                changed = True
+                    for bj, tj in b.calls():
+                        nj = callee_names(tj)
+                        tl = nj[-1].rsplit("::", 1)[-1] if nj else ""
+                        if tl in ("into_future", "new_unchecked", "as_mut", "instrument") and tj["args"] and tj["args"][0]["k"] != "const" and tj["args"][0]["p"]["l"] in L and tj["d"]["l"] not in L:
+                            L.add(tj["d"]["l"])
+                            changed = True
+                for bj, tj in b.calls():
+                    nj = callee_names(tj)
+                    if nj and any(x.endswith("Future::poll") for x in nj) and tj["args"] and tj["args"][0]["k"] != "const" and tj["args"][0]["p"]["l"] in L and tj["t"] is not None:
+                        sw = b.blocks[tj["t"]]["t"]
+                        if sw["k"] == "switch":
+                            tm = {str(v): tb for v, tb in sw["ts"]}
+                            if "0" in tm:
+                                ready.append((tj["t"], tm["0"]))
+            for bi, what in rms:
+                n_rm += 1
+                fn = b.owner.rsplit("::", 1)[-1]
+                if any(b.edge_dominates(s_, d_, bi) for (s_, d_) in ready):
+                    res.ok("R9.handle", "%s|%s" % (fn, what), where(b, bi), "the handle is removed only after `PolicyState::start().await` of its state machine has completed")
+                else:
+                    res.bad("R9.handle", "%s|%s" % (fn, what), "`%s` on the table of state-machine handles is not preceded by the completion of that machine's `start()`: the handle of a computation that may still be running is dropped, "
+                            "so later /run, /consts and /msg requests of its peers are answered with UnknownComputationId" % what, where(b, bi))
+        res.need("R9.handle", "handle_table_operations", n_map, 5, "operations on the HashMap of PolicyStateHandles in polytune-http-server")
+        res.need("R9.handle", "handle_removals", n_rm, 1, "removals from the table of handles")
 
     PANIC_OK = {
         ("schedule", "expect"): "acquire_owned on a semaphore checked not-closed in new(); send on own cmd queue whose receiver the actor holds",
